@@ -12,6 +12,7 @@ import LP.Driver.Hist
 import LP.Driver.Eval
 import LP.Driver.Infer
 import LP.Driver.Factor
+import LP.Driver.Zp
 import Std.Data.HashMap
 open LP LP.Driver
 
@@ -49,6 +50,7 @@ def checkLine (line : String) : String × String × Verdict :=
         | "ev" => checkEval2 op args r
         | "inf" => checkInfer op args r
         | "fac" => checkFactor op args r
+        | "zp" => checkZp op args r
         | "ugcd" => checkUGcd op args r
         | "refs" => checkRefs args r
         | _ => Verdict.skip s!"unknown family {fam}"
